@@ -79,8 +79,10 @@ Theorem C09_sum_mean_float w mp wm l v : (0 < w)%nat ->
 Proof. exact (sum_output fops fops_laws fops_cancel w mp wm l v). Qed.
 Print Assumptions C09_sum_mean_float.
 
-(* integers, and (nullable = true) timestamps / timedeltas: no side condition — the kernel never inspects its running
-   sum, so one that passes through the sentinel is harmless *)
+(* integers, and (nullable = true) timestamps / timedeltas, in exact arithmetic: no side condition on the sums (the
+   kernel never inspects its running sum).  NB the real kernel keeps its running sums in float64 cells (group_sums =
+   np.zeros(ngroups)): this integer-domain statement describes it exactly while the window sums stay below 2^53 in
+   magnitude; beyond that the kernel rounds (the property claims exactness for rolling min / max / shift only) *)
 Theorem C09_sum_mean_int nullable nullv w mp wm l v : (0 < w)%nat ->
   let o := zops nullable nullv in
   snd (sum_step o w mp wm (run_sum o w mp wm l) (v, true)) =
